@@ -280,7 +280,7 @@ pub fn run(mut chk: Check) -> ! {
         .into();
     chk.assumptions = vec!["refresolve implements the specification's rules; where its alternative list had to be truncated or a default could not be interpreted the case only checks route agreement".into()];
     chk.replay_files(dispatch);
-    let n = chk.scale(12_000, 600_000);
+    let n = chk.scale(300_000, 2_000_000);
     chk.campaign(CampaignCfg::new("pairs", n), case_pair);
     chk.campaign(CampaignCfg::new("multi_named", n / 6), case_pair_multi_named);
     chk.finish()
